@@ -58,11 +58,12 @@ func genC20(r *gen.Rand) *C20Case {
 	raw("x.ini", "[x]\n")
 	raw("plain", "words\n")
 	// argument vector
-	good := []string{"a.yaml", "a.b.yaml", "c.json", "d/e.yaml", "t.toml", "./a.b.yaml"}
+	good := []string{"a.yaml", "a.b.yaml", "c.json", "d/e.yaml", "t.toml", "./a.b.yaml", "d/../c.json", "./d/e.yaml"}
 	virtual := []string{"a.b.json", "c.yaml", "a.toml", "d/e.json", "c.yml", "a.b.jsonl"}
 	failing := []string{"bad.yaml", "bad2.json", "broken.yaml", "bad.json"}
 	pass := []string{"apply", "get", "-f", "-v", "--dry-run", "--opt=value", "--file=a.b.yaml", "-o=c.json", "notes.txt", "x.ini", "plain",
-		"nosuch.yaml", "nosuch", "a.b", "a.yaml.bak", "", "--", "-", "a.b.yaml ", "d", "d/", "zz/a.yaml", "a.xml", "--filename=d/e.yaml", "-f=a.yaml"}
+		"nosuch.yaml", "nosuch", "a.b", "a.yaml.bak", "", "--", "-", "a.b.yaml ", "d", "d/", "zz/a.yaml", "a.xml", "--filename=d/e.yaml", "-f=a.yaml",
+		"notes.json", "plain.yaml", "x.toml", "./notes.txt", "d/../notes.txt", "a=b", "--set", "k=v.yaml", "e.yaml", "-o", "yaml", ".yaml", "a..yaml"}
 	n := r.Range(0, 8)
 	failP := gen.PickAny(r, []float64{0, 0, 0.08, 0.25})
 	for i := 0; i < n; i++ {
